@@ -43,6 +43,7 @@ fi
     github.com/sarchlab/akita/v4/sim github.com/sarchlab/akita/v4/mem/mem github.com/sarchlab/akita/v4/mem/vm ) > "$B/rewrite-akita.log" \
   || { cat "$B/rewrite-akita.log" >&2; fail "instrumentation of akita failed"; }
 cmp -s "$MC/rewrite/extra/sim_e3.go.txt" "$AK/sim/zz_e3_verif.go" || cp "$MC/rewrite/extra/sim_e3.go.txt" "$AK/sim/zz_e3_verif.go"
+cmp -s "$MC/rewrite/extra/simulation_e3.go.txt" "$AK/simulation/zz_e3_verif.go" || cp "$MC/rewrite/extra/simulation_e3.go.txt" "$AK/simulation/zz_e3_verif.go"
 
 # 5. driver instrumentation from the current working tree -> overlay
 ( cd "$MC" && "$ROOT/build/e3/e3rewrite" -modfile "$B/plain.mod" -tags verif -overlay-dir "$B/src" -overlay-json "$B/overlay.json" \
